@@ -165,11 +165,6 @@ theorem lag_coef (al : F) (n : ℕ) :
     rw [this]; simp
   · simp [lagFam]
 
-@[simp] theorem liftP_a (G : Fam F) (n : ℕ) : (liftP G).a n = C (G.a n) := rfl
-@[simp] theorem liftP_b (G : Fam F) (n : ℕ) : (liftP G).b n = C (G.b n) := rfl
-@[simp] theorem liftP_c (G : Fam F) (n : ℕ) : (liftP G).c n = C (G.c n) := rfl
-@[simp] theorem liftP_e (G : Fam F) (n : ℕ) : (liftP G).e n = C (G.e n) := rfl
-@[simp] theorem liftP_p0 (G : Fam F) : (liftP G).p0 = C G.p0 := rfl
 
 /-- the Laguerre polynomial of shape `al` as a polynomial -/
 noncomputable def lagPoly (al : F) (n : ℕ) : F[X] := (liftP (lagFam al)).p X n
